@@ -61,6 +61,7 @@ Section PushDistinct.
     - destruct (none_like _); reflexivity.
     - destruct (is_blank_text (tally_text l i)); reflexivity.
     - destruct (Assign.do_assignment _ _ _ _) as [[[|] ?]|]; reflexivity.
+    - destruct (Assign.do_assignment _ _ _ _) as [[[|] ?]|]; reflexivity.
   Qed.
 
   Lemma do_action_keeps_distinct s l a k : (match a with PushN k' _ | PushS k' _ | Pop _ k' => k' <> k | _ => True end) ->
